@@ -380,7 +380,9 @@ def execute(sysm: Any, ops: Dict[str, Any], stats: Stats) -> None:
 def run_task(prop: Any, task: Dict[str, Any]) -> Dict[str, Any]:
     cfg = task["cfg"]
     t0 = time.time()
-    sysm = make_sys(cfg)
+    from jsim.core import construct
+
+    sysm = construct(make_sys, cfg)
     stats = Stats()
     digests: List[int] = []
     nontrivial: List[bool] = []
@@ -444,7 +446,11 @@ def run_task(prop: Any, task: Dict[str, Any]) -> Dict[str, Any]:
 
 
 def replay(v: Dict[str, Any], path: str) -> int:
-    sysm = make_sys(v["config"])
+    from jsim.core import construct
+
+    sysm = construct(make_sys, v["config"])
+    if v.get("construction_only"):
+        return 0
     try:
         execute(sysm, v["ops"], Stats())
     except Violation as got:
